@@ -278,25 +278,33 @@ func CheckStateResponse(
 		return nil, nil, fmt.Errorf("expected %d errors but got %d", len(allEvents), len(errors))
 	}
 
-	// Work out which events failed the signature checks.
-	failures := map[string]error{}
+	// Work out which events failed the signature checks. The same event may be
+	// listed under the auth events and under the state events: every copy is
+	// judged by its own signatures, and a copy that passed stands for the event.
+	// (If a failed copy disqualified the event as a whole, a server could take
+	// any auth event out of consideration by sending a broken copy of it.)
+	badSignature := make([]bool, len(allEvents))
+	eventsByID := map[string]PDU{}
 	for i, e := range allEvents {
 		if errors[i] != nil {
 			logrus.WithError(errors[i]).Warnf("Signature validation failed for event %q", e.EventID())
-			failures[e.EventID()] = errors[i]
+			badSignature[i] = true
+			continue
 		}
-	}
-
-	// Collect a map of event reference to event.
-	eventsByID := map[string]PDU{}
-	for i := range allEvents {
-		if _, ok := failures[allEvents[i].EventID()]; !ok {
-			eventsByID[allEvents[i].EventID()] = allEvents[i]
+		if _, ok := eventsByID[e.EventID()]; !ok {
+			eventsByID[e.EventID()] = e
 		}
 	}
 
 	// Check whether the events are allowed by the auth rules.
-	for _, event := range allEvents {
+	failures := map[string]error{}
+	for i, event := range allEvents {
+		if badSignature[i] {
+			continue
+		}
+		if _, checked := failures[event.EventID()]; checked {
+			continue
+		}
 		if err := checkAllowedByAuthEvents(event, eventsByID, missingAuth, userIDForSender); err != nil {
 			logrus.WithError(err).Warnf("Event %q is not allowed by its auth events", event.EventID())
 			failures[event.EventID()] = err
@@ -305,21 +313,24 @@ func CheckStateResponse(
 
 	// For all of the events that weren't verified, remove them
 	// from the RespState. This way they won't be passed onwards.
-	if f := len(failures); f > 0 {
-		logger.Warnf("Discarding %d auth/state event(s) due to invalid signatures", f)
-
-		for i := 0; i < len(authEvents); i++ {
-			if _, ok := failures[authEvents[i].EventID()]; ok {
-				authEvents = append(authEvents[:i], authEvents[i+1:]...)
-				i--
+	keep := func(events []PDU, offset int) []PDU {
+		kept := events[:0]
+		for i, event := range events {
+			if badSignature[offset+i] {
+				continue
 			}
-		}
-		for i := 0; i < len(stateEvents); i++ {
-			if _, ok := failures[stateEvents[i].EventID()]; ok {
-				stateEvents = append(stateEvents[:i], stateEvents[i+1:]...)
-				i--
+			if _, failed := failures[event.EventID()]; failed {
+				continue
 			}
+			kept = append(kept, event)
 		}
+		return kept
+	}
+	numAuth, numState := len(authEvents), len(stateEvents)
+	authEvents = keep(authEvents, 0)
+	stateEvents = keep(stateEvents, numAuth)
+	if discarded := numAuth + numState - len(authEvents) - len(stateEvents); discarded > 0 {
+		logger.Warnf("Discarding %d auth/state event(s) due to invalid signatures or auth failures", discarded)
 	}
 
 	return authEvents, stateEvents, nil
